@@ -146,6 +146,12 @@ verus_unit("rescuev", "rescuev", ["C11"], [
     "Rp64_256::apply_round / apply_permutation / apply_sbox", "RpJive64_256::apply_round / apply_permutation / apply_sbox", "rp62_248::apply_round / apply_permutation",
     "round r == add ARK2[r] . MDS . inverse S-box . add ARK1[r] . MDS . S-box; permutation == 7 rounds in order; 64-bit S-box == lane-wise exp7 (template generated by tools/gen_rescue_units.py)"])
 
+verus_unit("rescuev", "rescuev", ["C11"], [
+    "Rp64_256::apply_round / RpJive64_256::apply_round / rp62_248::apply_round (every state and round: S-box, MDS, first round constants of that round, inverse S-box, MDS, second round constants - in that order; the step functions are named contracts proved or exercised elsewhere)",
+    "Rp64_256::apply_permutation / RpJive64_256::apply_permutation / rp62_248::apply_permutation (rounds 0 .. NUM_ROUNDS - 1 in order, NUM_ROUNDS read from /repo)",
+    "Rp64_256::apply_sbox (each of the 12 lanes is raised to the 7th power)"])
+
+
 native_unit("hash_native", "winter-crypto", "crypto", "native/hash_bounded.rs", ["C11", "C10", "C19"],
             ["Blake3_256::{hash, merge, merge_with_int, hash_elements}", "Blake3_192::{hash, merge, merge_with_int, hash_elements}", "Sha3_256::{hash, merge, merge_with_int, hash_elements}", "ByteDigest::digests_as_bytes", "FieldElement::elements_as_bytes"],
             "the byte-oriented hashers equal their documented definition computed directly with the blake3 / sha3 crates: hash(bytes) == H(bytes) (24-byte truncation for Blake3_192); merge([a, b]) == H(a || b); merge_with_int(seed, v) == H(seed || le64(v)); hash_elements == H(canonical little-endian encodings of the residues) whatever the internal representation (Montgomery words, lazy f62 representatives) and whether the residues are typed as base or as quadratic / cubic extension elements",
